@@ -22,6 +22,15 @@ def run_witness(unit, failed_ids, seed, timeout=900):
         subprocess.run(['rsync', '-a', '--exclude', 'target', '--exclude', '.git', REPO + '/', dst + '/'], check=True)
         with open(os.path.join(unit_dir, cfg['test_file'])) as f:
             body = f.read()
+        for ex in cfg.get('extra_inject', []):
+            tp = os.path.join(dst, ex['into'])
+            txt = open(tp).read()
+            m = re.search(ex['after_regex'], txt)
+            if not m:
+                raise RuntimeError('witness extra_inject anchor not found')
+            pos = txt.rfind('\n', 0, m.start()) + 1 if ex.get('before') else m.end()
+            txt = txt[:pos] + ex['text'] + txt[pos:]
+            open(tp, 'w').write(txt)
         with open(os.path.join(dst, cfg['inject_into']), 'a') as f:
             f.write(f"\n#[cfg(test)]\n#[allow(unused, dead_code)]\nmod verif_witness_{unit.replace('-', '_')} {{\n    use super::*;\n{body}\n}}\n")
         env = dict(os.environ, CARGO_NET_OFFLINE='true', CARGO_TARGET_DIR=os.path.join(d, 'target'), VERIF_SEED=str(seed))
@@ -29,7 +38,7 @@ def run_witness(unit, failed_ids, seed, timeout=900):
         p = subprocess.run(cmd, cwd=dst, env=env, capture_output=True, text=True, timeout=timeout)
         out = p.stdout + p.stderr
         res = []
-        for m in re.finditer(r'^WITNESS (\S+) :: (.*)$', out, flags=re.M):
+        for m in re.finditer(r'WITNESS (\S+) :: (.*)$', out, flags=re.M):
             res.append({'unit': unit, 'obligation_label': m.group(1), 'input': m.group(2)[:1500],
                         'cmd': ' '.join(cmd) + f'  (scratch copy of /repo with units/{unit}/{cfg["test_file"]} appended to {cfg["inject_into"]})'})
         if 'WITNESS-SEARCH-DONE' not in out:
